@@ -89,7 +89,10 @@ func fwBuild(r *Rng, s *fwSpec, now uint64, peer string) bpv7.Bundle {
 	}
 	var vals []bpv7.ExtensionBlock
 	var flags []bpv7.BlockControlFlags
-	add := func(v bpv7.ExtensionBlock, f bpv7.BlockControlFlags) { vals = append(vals, v); flags = append(flags, f) }
+	add := func(v bpv7.ExtensionBlock, f bpv7.BlockControlFlags) {
+		vals = append(vals, v)
+		flags = append(flags, f)
+	}
 	kf := func() bpv7.BlockControlFlags { // flags of known blocks: none of them matters to forward
 		if r.Intn(4) == 0 {
 			return bpv7.ReplicateBlock
@@ -178,6 +181,7 @@ type fwRound struct {
 	resMs   uint64 // residence to set before a retry
 	viaPeer bool   // the retry is triggered by the peer's appearance (peer was not up before)
 	sleepMs int    // real sleep before the round (expiry stream only)
+	keep    bool   // do not rewrite the stored reception timestamp: the residence keeps counting from the stamp of the previous round
 }
 
 type fwScenario struct {
@@ -327,6 +331,8 @@ func fwRunCase(o *Out, r *Rng, e *fwEnv, sc fwScenario, spec *fwSpec, stream str
 		rounds = append(rounds, L(Sym("recv"), U(fwDtnMs(t0)-2), U(fwDtnMs(t1)+2), U(0), U(resHi),
 			fwSends(n, after, id), B(n.Knows(bid)), B(peerUp), fwConstraints(n, bid), B(true)))
 	}
+	var lastStamp time.Time
+	haveStamp := false
 	for _, rd := range sc.rounds {
 		if rd.sleepMs > 0 {
 			time.Sleep(time.Duration(rd.sleepMs) * time.Millisecond)
@@ -337,9 +343,12 @@ func fwRunCase(o *Out, r *Rng, e *fwEnv, sc fwScenario, spec *fwSpec, stream str
 			var stamp time.Time
 			known := n.Knows(bid)
 			setOK := false
-			if known {
+			if known && rd.keep && haveStamp {
+				stamp, setOK = lastStamp, true
+			} else if known {
 				stamp = time.Now().Add(-time.Duration(rd.resMs) * time.Millisecond)
 				setOK = n.Core.VerifSetReceptionTime(bid, stamp) == nil
+				lastStamp, haveStamp = stamp, setOK
 			}
 			t0 := time.Now()
 			var allowed bool
@@ -487,7 +496,7 @@ var fwResidences = []uint64{0, 50, 3000}
 
 func fwRandScenario(r *Rng, alg string) fwScenario {
 	sc := fwScenario{alg: alg}
-	switch r.Intn(4) {
+	switch r.Intn(5) {
 	case 0: // peer up, success at once
 		sc.peerFirst = true
 	case 1: // peer up, first sends fail, retries
@@ -498,6 +507,13 @@ func fwRandScenario(r *Rng, alg string) fwScenario {
 		}
 	case 2: // stored without a peer, first transmission after a residence when the peer appears
 		sc.rounds = append(sc.rounds, fwRound{kind: "retry", resMs: fwResidences[r.Intn(3)], viaPeer: true})
+	case 3: // the residence keeps counting across failed attempts: the stamp is set once, two sends fail,
+		// the later retries must still add the whole time since the (back-dated) reception
+		sc.peerFirst = true
+		sc.fails = 2
+		sc.rounds = append(sc.rounds, fwRound{kind: "retry", resMs: 2000 + fwResidences[r.Intn(3)]})
+		sc.rounds = append(sc.rounds, fwRound{kind: "retry", keep: true})
+		sc.rounds = append(sc.rounds, fwRound{kind: "retry", keep: true})
 	default: // stored without a peer; the peer fails; 3rd retry succeeds
 		sc.fails = 2
 		sc.rounds = append(sc.rounds, fwRound{kind: "retry", resMs: fwResidences[r.Intn(3)], viaPeer: true})
